@@ -109,6 +109,8 @@ Fixpoint unmarshal (proto : Z) (t : tinfo) (data : option bytes) {struct t} : re
             | Some k =>
                 lift (out (read_coll_size proto) d) (fun nd =>
                   if fst nd <? 0 then Err EUnmarshal        (* "negative map size" *)
+                  else if fst nd >? blen (snd nd) / (2 * (if proto >? K.protoVersion2 then 4 else 2))
+                  then Err EUnmarshal                       (* more entries than pairs of size fields could follow *)
                   else map_loop (unmarshal proto k) (unmarshal proto elem) proto (S (length (snd nd))) (fst nd) (snd nd))
             end
           else
